@@ -433,6 +433,8 @@ PROPS["C11"] = {
          "quick": {"checks": 600, "shards": 4}, "thorough": {"checks": 8000, "shards": 16}},
         {"name": "race-detector", "mode": "race", "test": "TestC11",
          "quick": {"checks": 80, "shards": 4}, "thorough": {"checks": 1000, "shards": 16}},
+        {"name": "listener", "mode": "plain", "test": "TestC11Listener",
+         "quick": {"checks": 100, "shards": 4}, "thorough": {"checks": 3000, "shards": 8}},
     ],
 }
 PROPS["C12"] = {
@@ -670,3 +672,4 @@ PROPS["C08"]["rule"] += " Half of the properties are written as facts ({id: targ
 PROPS["C14"]["rule"] += " The non-terminating family includes scripts that get past the limit inside a built-in function (one long Env.sleep as the last step, many short ones in a loop); the throwing family includes thrown values that cannot be turned into a message and results whose getter throws. A 'good' script that fails is only a violation if it came back in less than half its limit (a busy machine can make a script meet its limit for real)."
 PROPS["C14"]["rule"] += " A `chain` family returns what Env.ProcessEvent returned (with and without a rule for the inner event, bare and wrapped in an object): such a script finishes and succeeds. The self-referring values include cycles hidden from JSON (a toJSON method; a JSON object replaced by the script)."
 PROPS["C14"]["rule"] += " Actions are written with every documented code encoding (absent, \"none\", \"\", base64)."
+PROPS["C11"]["rule"] += " A third part (listener) puts the HTTP service behind its own service.Listener on a loopback port, with a limit on pending requests of 0 (none), 1, 2 or 3: 2-6 clients, one location each, send 1-4 requests each over fresh connections, whose scripts sleep 0, 5 or 20 ms; the process survives, every request is answered with its own value or - only with a limit - turned away, and afterwards every location is served; non-trivial = no limit, or a request was turned away."
